@@ -7,6 +7,7 @@ set, one PRNG stream each) and compared with the eager result.
 """
 
 import copy
+import time
 import warnings
 
 import numpy as np
@@ -77,6 +78,10 @@ def gen_simple_grid(rng, tier):
     for d in ("t", "k"):
         if rng.random() < 0.4:
             extra[d] = rng.randint(1, 3)
+    if rng.random() < 0.07:
+        # a long dimension: blocks of 10^4 .. 10^5 elements, so that code paths chosen by the size of a block
+        # (workspaces, thresholds) are run as well; chunked into a few equal blocks (see gen_chunks)
+        extra["b"] = rng.choice([4096, 8192, 9000, 12000, 16384])
     words = ["fill", "extend", "periodic"]
     g = {"periodic": False}
     r = rng.random()
@@ -170,6 +175,12 @@ def gen_chunks(rng, dims, sizes, allowed=None):
     ch = {}
     for d in dims:
         if allowed is not None and d not in allowed:
+            continue
+        if sizes[d] > 64:
+            # long dimension: a few blocks, equal where the length allows it
+            k = rng.choice([1, 2, 2, 3, 4])
+            q, r = divmod(sizes[d], k)
+            ch[d] = [q + (1 if i < r else 0) for i in range(k)]
             continue
         ch[d] = list(worlds.compositions(rng, sizes[d]))
     return ch
@@ -367,9 +378,11 @@ def gen_ufunc_case(rng, gs, spec, tier):
         inputs2 = copy.deepcopy(inp)
         inputs2["data"] = {"gen": "randint", "seed": rng.randrange(10**6), "lo": -9, "hi": 9}
         inputs2["name"] = "q2"
-        if rng.random() < 0.3:  # fewer non-core dimensions
+        if rng.random() < 0.45:  # fewer non-core dimensions (leading, middle or trailing ones)
             core_dims = [gs["axes"][a]["pos"][frompos[a]] for a in uaxes]
             inputs2["dims"] = [d for d in inputs2["dims"] if d in core_dims or rng.random() < 0.5]
+            if (inputs2.get("extra_coords") or {}).get("along") not in inputs2["dims"]:
+                inputs2.pop("extra_coords", None)
         spec["input2"] = inputs2
     in_arg = ",".join(f"{dummy[a]}:{frompos[a]}" for a in uaxes)
     out_arg = ",".join(f"{dummy[a]}:{topos[a]}" for a in uaxes)
@@ -402,6 +415,10 @@ def gen_ufunc_case(rng, gs, spec, tier):
     via = rng.choice(["apply", "decorator"])
     spec["op"] = {"name": "ufunc", "via": via, "weights": weights, "kw": kw, "nin": nin,
                   "frompos": frompos, "topos": topos}
+    if inputs2 is not None and rng.random() < 0.4:
+        # either argument may be the one with fewer dimensions
+        spec["input"], spec["input2"] = spec["input2"], spec["input"]
+        spec["chunks"], spec["chunks2"] = spec["chunks2"], spec["chunks"]
     spec["lazy_ds"] = None
     return spec
 
@@ -557,6 +574,12 @@ def make_case(seed_i, tier):
     rng = core.stream(seed_i, "workload")
     spec = gen_face_case(rng, tier) if rng.random() < 0.3 else gen_simple_case(rng, tier)
     spec["schedules"] = gen_schedules(core.stream(seed_i, "schedule"), tier)
+    if "b" in (spec["gspec"].get("extra") or {}):
+        # size-dependent code paths matter where tasks can meet: run the big-block cases with concurrent task pairs
+        r = core.stream(seed_i, "bulk")
+        for sc in spec["schedules"][1:]:
+            if r.random() < 0.8:
+                sc.setdefault("faults", {})["conc"] = 1.0
     spec["slice_probe"] = core.derive(seed_i, "slice") % 10**9
     return spec
 
@@ -1121,7 +1144,14 @@ def minimise(spec, fingerprint, sched_index):
 
     target = norm(fingerprint)
 
+    t_end = time.time() + 40.0
+
     def test(s):
+        if time.time() > t_end:
+            # wall cap on shrinking (big-block cases take seconds per run): whatever has been reached so far is
+            # still a failing, replayable case
+            budget[0] = 0
+            return False
         v, _ = run_case(s)
         return bool(v) and norm(v["fingerprint"]) == target
 
